@@ -33,7 +33,7 @@ func init() {
 			c.Rep.floor("G1", 350)
 			runR_C01(c)
 		},
-		explanation: "Structural necessary conditions of C01 decided statically: (G11) the work list cannot report success before every generator is Done and name lookup answers only under the type comparison; (G1) no generator error is dropped or swallowed; (G8) every plugin is registered once, every deps[...] key is bound and every discovered call reaches Add or the deferred list; (G13) Field.Private agrees with Go's exportedness on every class of first characters and unvendor strips whole vendor path elements only; (Engine R) every accepted abstract run of every plugin emits text that parses and gofmt-s (R1), refers only to holes / universe names / identifiers it declares (R2), uses exactly the imports it requested (R3), marks what it generates (Generating must-pass-through) and, where kinds are determined, type-checks against the documented helper signatures (R4, thorough). Not decided: import-alias collisions, the multi-pass reload loop, _test files, shapes beyond the stated bounds. Added: (R4, every tier) every accepted run of every plugin — also runs whose text repeats but whose holes stand for other types — is type-checked with go/types against declarations built from the path (kinds, exact basic kinds, struct fields incl. a blank first field, defined vs literal types, identities, directional assignability, user methods found by the lookup predicates, documented helper signatures); runs the model cannot express are counted as untyped. (G12) HasUndefined examines whole types; (G14) the finder always continues into the children of a node; (G16) every load includes test files, tolerates errors, and nobody reads a package's Errors list; (R1) no blank field is selected, unsafe casts use the field's own type. Fourth session: FieldStrings interpreted; struct tags containing a percent sign in the input space; mangled twin for type text in format position; alternative basic kinds / untyped nil / slice / channel-direction declarations for whatever a path left open (each alternative a possible input: a type error is a definite compile error for it); (G14) reserved set complete before naming; (G9) canEqual/canCopy/IsComparable tabulated; (G8) every recorded call becomes a call record. Since wave 6: a TypeString result (which registers an import) must reach the output (R3); the cast type that reads a private field of an imported struct is the field's own type or, exactly when that type was established unexported, its Underlying() (G33/R1); blank named results are part of the abstract input space; Generating is asked about the value that was registered; string cuts in helper names are rune-aligned (G15); canEqual asks for Equal methods before licensing == (G9).",
+		explanation: "Structural necessary conditions of C01 decided statically: (G11) the work list cannot report success before every generator is Done and name lookup answers only under the type comparison; (G1) no generator error is dropped or swallowed; (G8) every plugin is registered once, every deps[...] key is bound and every discovered call reaches Add or the deferred list; (G13) Field.Private agrees with Go's exportedness on every class of first characters and unvendor strips whole vendor path elements only; (Engine R) every accepted abstract run of every plugin emits text that parses and gofmt-s (R1), refers only to holes / universe names / identifiers it declares (R2), uses exactly the imports it requested (R3), marks what it generates (Generating must-pass-through) and, where kinds are determined, type-checks against the documented helper signatures (R4, thorough). Not decided: import-alias collisions, the multi-pass reload loop, _test files, shapes beyond the stated bounds. Added: (R4, every tier) every accepted run of every plugin — also runs whose text repeats but whose holes stand for other types — is type-checked with go/types against declarations built from the path (kinds, exact basic kinds, struct fields incl. a blank first field, defined vs literal types, identities, directional assignability, user methods found by the lookup predicates, documented helper signatures); runs the model cannot express are counted as untyped. (G12) HasUndefined examines whole types; (G14) the finder always continues into the children of a node; (G16) every load includes test files, tolerates errors, and nobody reads a package's Errors list; (R1) no blank field is selected, unsafe casts use the field's own type. Fourth session: FieldStrings interpreted; struct tags containing a percent sign in the input space; mangled twin for type text in format position; alternative basic kinds / untyped nil / slice / channel-direction declarations for whatever a path left open (each alternative a possible input: a type error is a definite compile error for it); (G14) reserved set complete before naming; (G9) canEqual/canCopy/IsComparable tabulated; (G8) every recorded call becomes a call record. Since wave 6: a TypeString result (which registers an import) must reach the output (R3); the cast type that reads a private field of an imported struct is the field's own type or, exactly when that type was established unexported, its Underlying() (G33/R1); blank named results are part of the abstract input space; Generating is asked about the value that was registered; string cuts in helper names are rune-aligned (G15); canEqual asks for Equal methods before licensing == (G9). Engine G analyses the helper-inlined view of the driver (normalise.go; notes in this evidence say what was inlined).",
 		assumptions: commonAssumptions,
 		technique:   "custom static analysis: CFG dominance lints over the driver + abstract interpretation of plugins into residual programs checked with go/parser, go/format and go/types",
 	}
@@ -141,7 +141,7 @@ func init() {
 			c.Rep.floor("G4", 10)
 			c.Rep.floor("G10", 9)
 		},
-		explanation: "Decides the mechanisms C07's anchors name, each a necessary condition: the derived file is written with a truncating os.Create on a path that comes only from (*pkg).Filename(), the same constant is what discovery excludes (G4); every successful return of generatePackage has passed through Print (HasContent) or Delete (otherwise) (G10 must-pass-through on the CFG); the loader tolerates type errors and an unparsable derived file; files named derivedFilename are excluded from call discovery, names resolved into it are re-queued and never reserved; no user file is skipped when listing package files (G10). (G22) the previous output is not an input of the first pass: every loader.Config installs a FindPackage hook that takes the package from (*build.Context).Import and, on every CFG path to a return on which the package is non-nil and marked stale, has replaced GoFiles by a filter of GoFiles by derivedFilename (the filter is evaluated abstractly on literal lists: exactly the other names, in order); (*plugins).Load marks every path it loads as stale; a load that marks nothing comes after this run's Print; the hook drops derivedFilename from InvalidGoFiles and clears go/build's error only under a condition on what remains of InvalidGoFiles. G17 (argument types cannot come from the previous derived.gen.go, nor from the callee's declaration) and G19 (a truncated remnant is never read, or the file is replaced atomically) are discharged through G22; on the tree before fix a84a5a8 both fail. G18: one call list in visit order. Not decided: byte identity across histories beyond these necessary conditions; derived files of imported (non-initial) packages. Added: reserved names never come from the whole type-checked package (G14); the finder continues into a call's arguments (G14); HasUndefined examines whole types (G12); loads include test files, tolerate errors, nobody reads a package's Errors list (G16). Since wave 6: the reload loop breaks exactly when a pass left the set of undefined calls of this package unchanged (G23); the initial packages are generated in load order (G31); the directory of the derived file is known before Print/Delete (G26).",
+		explanation: "Decides the mechanisms C07's anchors name, each a necessary condition: the derived file is written with a truncating os.Create on a path that comes only from (*pkg).Filename(), the same constant is what discovery excludes (G4); every successful return of generatePackage has passed through Print (HasContent) or Delete (otherwise) (G10 must-pass-through on the CFG); the loader tolerates type errors and an unparsable derived file; files named derivedFilename are excluded from call discovery, names resolved into it are re-queued and never reserved; no user file is skipped when listing package files (G10). (G22) the previous output is not an input of the first pass: every loader.Config installs a FindPackage hook that takes the package from (*build.Context).Import and, on every CFG path to a return on which the package is non-nil and marked stale, has replaced GoFiles by a filter of GoFiles by derivedFilename (the filter is evaluated abstractly on literal lists: exactly the other names, in order); (*plugins).Load marks every path it loads as stale; a load that marks nothing comes after this run's Print; the hook drops derivedFilename from InvalidGoFiles and clears go/build's error only under a condition on what remains of InvalidGoFiles. G17 (argument types cannot come from the previous derived.gen.go, nor from the callee's declaration) and G19 (a truncated remnant is never read, or the file is replaced atomically) are discharged through G22; on the tree before fix a84a5a8 both fail. G18: one call list in visit order. Not decided: byte identity across histories beyond these necessary conditions; derived files of imported (non-initial) packages. Added: reserved names never come from the whole type-checked package (G14); the finder continues into a call's arguments (G14); HasUndefined examines whole types (G12); loads include test files, tolerate errors, nobody reads a package's Errors list (G16). Since wave 6: the reload loop breaks exactly when a pass left the set of undefined calls of this package unchanged (G23); the initial packages are generated in load order (G31); the directory of the derived file is known before Print/Delete (G26). Engine G analyses the helper-inlined view of the driver (normalise.go; notes in this evidence say what was inlined).",
 		assumptions: commonAssumptions,
 		technique:   "custom static analysis: who-may-call table, path provenance, go/cfg must-pass-through and exclusion (reachability/dominance) rules",
 	}
@@ -157,7 +157,7 @@ func init() {
 			g14ReservedProvenance(c)
 			c.Rep.floor("G6", 8)
 		},
-		explanation: "G6: every range over a Go map in main/derive/plugin/* is classified (insert-only / constant reduction / append-then-sort are order-insensitive; first-match returns, emission or unsorted appends are violations); no package-level variable is written outside main/init and no package-level reference value escapes into per-package state; no clock/random/environment/goroutine input; printers, qualifiers, type tables and generators are constructed in newPackage only. Not decided: ordering inside go/loader and gotool (third-party), path-spelling independence, timing. Added: the callees of every order-insensitive map loop are effect-free (whole-repository may-have-effect analysis over static, interface and function-value calls; one exempted edge with its argument); nothing is ordered by token.Pos (expected count 0, with a built-in positive example); reserved names do not depend on the previous output. Added: G10 (every user file listed; print-or-delete on (*pkg).Filename()). Since wave 6: Print skips the write only after bytes.Equal of the whole old and new content (G4); nameOf's candidates are sorted and vetted (G6/G11); the progress test of the pass loop depends on the current package only (G23); the directory is known before Print/Delete (G26).",
+		explanation: "G6: every range over a Go map in main/derive/plugin/* is classified (insert-only / constant reduction / append-then-sort are order-insensitive; first-match returns, emission or unsorted appends are violations); no package-level variable is written outside main/init and no package-level reference value escapes into per-package state; no clock/random/environment/goroutine input; printers, qualifiers, type tables and generators are constructed in newPackage only. Not decided: ordering inside go/loader and gotool (third-party), path-spelling independence, timing. Added: the callees of every order-insensitive map loop are effect-free (whole-repository may-have-effect analysis over static, interface and function-value calls; one exempted edge with its argument); nothing is ordered by token.Pos (expected count 0, with a built-in positive example); reserved names do not depend on the previous output. Added: G10 (every user file listed; print-or-delete on (*pkg).Filename()). Since wave 6: Print skips the write only after bytes.Equal of the whole old and new content (G4); nameOf's candidates are sorted and vetted (G6/G11); the progress test of the pass loop depends on the current package only (G23); the directory is known before Print/Delete (G26). Engine G analyses the helper-inlined view of the driver (normalise.go; notes in this evidence say what was inlined).",
 		assumptions: commonAssumptions,
 		technique:   "custom static analysis: typed-AST classification of map iterations, global-state and nondeterministic-input lint, who-may-call for constructors",
 	}
@@ -176,7 +176,7 @@ func init() {
 			runG9(c, "equal.canEqual", "deepcopy.canCopy", "contains.canEqual", "derive.IsComparable")
 			runR_C09(c)
 		},
-		explanation: "G1: every error-returning call in main/derive/plugin/* (412 on the pinned tree) is returned, or tested with the non-nil branch ending in a non-nil error return / fatal exit; drops, blank assignments, swallows (`if err != nil { return nil }`) and error branches that stay inside a work loop are violations. G12: (*call).HasUndefined is tabulated over go/types kinds — on every path that answers `fully defined` it examined the whole type (String() rendering or every constituent), so unresolved argument types are always deferred. Engine R: no abstract run of any plugin (including runs Add rejects) hits a definite generator panic (index out of the established length, unchecked type assertion on an unrefined kind, Out underflow, explicit panic); no accepted run emits unparsable text; unsupported constituents (chan/func/interface) at every position of the structural plugins end in generator-error runs; operators are emitted only for kinds that support them. Not decided: termination of the reload loop, panics inside third-party code, broken user files. Added: (G15) constant offsets in the driver lie within an established length; (G14) Obj().Pkg() is nil-checked before use (IsExternal only on struct-kinded types, enforced by the interpreter); (G16) the finder records a call only after asserting call.Fun itself to be an identifier; recursion in a generator makes progress (re-entry with the same type arguments = definite non-termination); canEqual/canCopy/IsComparable tabulated incl. blank fields; (R4) every accepted run type-checks, as in C01. Fourth session: R4 alternatives as in C01; (G23) generatePackage returns nil only where no call is left undefined; (G24) nil first argument rejected in (*pkg).Add. Since wave 6: the progress measure of the pass loop has one entry per undefined call (G27) and the loop's exits are decided (G23); a package without files is skipped before any position lookup (G26); R-generating and G15 as in C01; contains.canEqual asks for Equal methods.",
+		explanation: "G1: every error-returning call in main/derive/plugin/* (412 on the pinned tree) is returned, or tested with the non-nil branch ending in a non-nil error return / fatal exit; drops, blank assignments, swallows (`if err != nil { return nil }`) and error branches that stay inside a work loop are violations. G12: (*call).HasUndefined is tabulated over go/types kinds — on every path that answers `fully defined` it examined the whole type (String() rendering or every constituent), so unresolved argument types are always deferred. Engine R: no abstract run of any plugin (including runs Add rejects) hits a definite generator panic (index out of the established length, unchecked type assertion on an unrefined kind, Out underflow, explicit panic); no accepted run emits unparsable text; unsupported constituents (chan/func/interface) at every position of the structural plugins end in generator-error runs; operators are emitted only for kinds that support them. Not decided: termination of the reload loop, panics inside third-party code, broken user files. Added: (G15) constant offsets in the driver lie within an established length; (G14) Obj().Pkg() is nil-checked before use (IsExternal only on struct-kinded types, enforced by the interpreter); (G16) the finder records a call only after asserting call.Fun itself to be an identifier; recursion in a generator makes progress (re-entry with the same type arguments = definite non-termination); canEqual/canCopy/IsComparable tabulated incl. blank fields; (R4) every accepted run type-checks, as in C01. Fourth session: R4 alternatives as in C01; (G23) generatePackage returns nil only where no call is left undefined; (G24) nil first argument rejected in (*pkg).Add. Since wave 6: the progress measure of the pass loop has one entry per undefined call (G27) and the loop's exits are decided (G23); a package without files is skipped before any position lookup (G26); R-generating and G15 as in C01; contains.canEqual asks for Equal methods. Engine G analyses the helper-inlined view of the driver (normalise.go; notes in this evidence say what was inlined).",
 		assumptions: commonAssumptions,
 		technique:   "custom static analysis: CFG-based error-flow lint + abstract interpretation of plugin Add/Generate with definite-panic detection",
 	}
@@ -191,7 +191,7 @@ func init() {
 			c.Rep.floor("G4", 10)
 			c.Rep.floor("G5", 6)
 		},
-		explanation: "G4: file-system effects are reachable only from (*pkg).Print (os.Create), (*pkg).Delete (os.Remove) and newPackage (os.OpenFile); no plugin and no other driver function references a mutating os/ioutil/exec/syscall member or handles an *os.File; paths come from Filename(); every open-for-write truncates; the source rewrite sits under a per-file guard that is reset for every file and can only be set inside `name != call.Name` after the no-flag panic. G5: the user's syntax tree is mutated at exactly one site (call.Expr.Fun = ast.NewIdent(name returned by Add)); comments are parsed; the file is re-printed whole from its own tree into its own path. G7: without flags SetFuncName can only return the requested name or fail. Not decided: byte-exactness of go/format, partial writes on I/O errors. Added: (G5) the replacement identifier carries the position of the identifier it replaces; (G16) a user file is opened for writing only after a complete parse of that very path. Since wave 6: the directory of the derived file is known before Print/Delete (G26).",
+		explanation: "G4: file-system effects are reachable only from (*pkg).Print (os.Create), (*pkg).Delete (os.Remove) and newPackage (os.OpenFile); no plugin and no other driver function references a mutating os/ioutil/exec/syscall member or handles an *os.File; paths come from Filename(); every open-for-write truncates; the source rewrite sits under a per-file guard that is reset for every file and can only be set inside `name != call.Name` after the no-flag panic. G5: the user's syntax tree is mutated at exactly one site (call.Expr.Fun = ast.NewIdent(name returned by Add)); comments are parsed; the file is re-printed whole from its own tree into its own path. G7: without flags SetFuncName can only return the requested name or fail. Not decided: byte-exactness of go/format, partial writes on I/O errors. Added: (G5) the replacement identifier carries the position of the identifier it replaces; (G16) a user file is opened for writing only after a complete parse of that very path. Since wave 6: the directory of the derived file is known before Print/Delete (G26). Engine G analyses the helper-inlined view of the driver (normalise.go; notes in this evidence say what was inlined).",
 		assumptions: commonAssumptions,
 		technique:   "custom static analysis: effect ownership (who-may-call), constant-flag evaluation, CFG guards, AST-store inventory",
 	}
@@ -217,7 +217,7 @@ func init() {
 			runG5(c.Repo, c.Rep)
 			c.Rep.floor("G7", 40)
 		},
-		explanation: "G7: SetFuncName's structured control flow is enumerated path by path over the atoms {name-of-types hit, hit==requested, requested bound, bound types eq, dedup, autoname}; each of the 36 consistent states must yield exactly the outcome the property prescribes (requested / existing only with -dedup / fresh only with -autoname / error / register in both tables). newName returns a candidate that was tested after its last update against both funcToTyps and reserved, built from the current prefix; GetFuncName registers exactly the name it returns; the reserved set is complete before any table uses it; nameOf answers only under eq (G11). Not decided: eq uses assignability rather than identity (outside the property's pairwise-non-assignable quantifier); type-correctness after renaming (C01). Added: (G16) eq evaluated abstractly on lists of lengths (1,2),(2,1),(0,1),(1,0),(2,3),(1,1),(2,2): false for different lengths, true when every pairwise test succeeds; (G14) the name returned by Add reaches the call identifier at every call site; (G4/G5) the rewrite truncates and prints the file's own tree; reserved names come from user files only. Added: every recorded call becomes its own record (G8), reserved set complete before naming (G14), argument types never from the callee's declaration (G17 clause 2). Since wave 6: eq compares types.Default'ed types (G29); every name declared at package level outside the derived file is reserved, called or not (G32); newName returns the very name it tested and cuts type names between runes (G7/G15).",
+		explanation: "G7: SetFuncName's structured control flow is enumerated path by path over the atoms {name-of-types hit, hit==requested, requested bound, bound types eq, dedup, autoname}; each of the 36 consistent states must yield exactly the outcome the property prescribes (requested / existing only with -dedup / fresh only with -autoname / error / register in both tables). newName returns a candidate that was tested after its last update against both funcToTyps and reserved, built from the current prefix; GetFuncName registers exactly the name it returns; the reserved set is complete before any table uses it; nameOf answers only under eq (G11). Not decided: eq uses assignability rather than identity (outside the property's pairwise-non-assignable quantifier); type-correctness after renaming (C01). Added: (G16) eq evaluated abstractly on lists of lengths (1,2),(2,1),(0,1),(1,0),(2,3),(1,1),(2,2): false for different lengths, true when every pairwise test succeeds; (G14) the name returned by Add reaches the call identifier at every call site; (G4/G5) the rewrite truncates and prints the file's own tree; reserved names come from user files only. Added: every recorded call becomes its own record (G8), reserved set complete before naming (G14), argument types never from the callee's declaration (G17 clause 2). Since wave 6: eq compares types.Default'ed types (G29); every name declared at package level outside the derived file is reserved, called or not (G32); newName returns the very name it tested and cuts type names between runes (G7/G15). Engine G analyses the helper-inlined view of the driver (normalise.go; notes in this evidence say what was inlined).",
 		assumptions: commonAssumptions,
 		technique:   "custom static analysis: decision-table extraction by path enumeration over the typed AST, loop-exit and dominance rules",
 	}
@@ -231,7 +231,7 @@ func init() {
 			c.Rep.floor("G8", 150)
 			runR_C12(c)
 		},
-		explanation: "G8: 33 NewPlugin registrations with unique names, unique default prefixes each starting with exactly one \"derive\" (so -prefix substitution is a pure renaming), all listed once in main, all deps keys bound; SetPrefix only from main before NewPlugins; the prefix is strings.Replace(default,\"derive\",*prefix,1) or the verbatim override; NewPlugins sorts before storing; the sort comparator is tabulated over the finite orderings of (length, string) and must be longest-first, irreflexive, asymmetric, total on equal lengths, and may index only the slice being sorted; both dispatch loops iterate the sorted slice and leave at the first match. Engine R: no residual contains a literal identifier starting with a registered default prefix; emitted function and helper names are NAME/FUNC holes (equivariance under the prefix map). Not decided: textual identity of two runs. Added: the -prefix substitution dominates SetPrefix. Since wave 6: the plugin list is never reordered after construction (G8); the name tested free is the name returned (G7); every declared name is reserved (G32).",
+		explanation: "G8: 33 NewPlugin registrations with unique names, unique default prefixes each starting with exactly one \"derive\" (so -prefix substitution is a pure renaming), all listed once in main, all deps keys bound; SetPrefix only from main before NewPlugins; the prefix is strings.Replace(default,\"derive\",*prefix,1) or the verbatim override; NewPlugins sorts before storing; the sort comparator is tabulated over the finite orderings of (length, string) and must be longest-first, irreflexive, asymmetric, total on equal lengths, and may index only the slice being sorted; both dispatch loops iterate the sorted slice and leave at the first match. Engine R: no residual contains a literal identifier starting with a registered default prefix; emitted function and helper names are NAME/FUNC holes (equivariance under the prefix map). Not decided: textual identity of two runs. Added: the -prefix substitution dominates SetPrefix. Since wave 6: the plugin list is never reordered after construction (G8); the name tested free is the name returned (G7); every declared name is reserved (G32). Engine G analyses the helper-inlined view of the driver (normalise.go; notes in this evidence say what was inlined).",
 		assumptions: commonAssumptions,
 		technique:   "custom static analysis: registry extraction, abstract evaluation of the comparator over a finite ordering table, CFG first-match rule, residual scope lint",
 	}
